@@ -119,7 +119,7 @@ def run_c14(tier, seed, res):
                      "cases_with_weight_vectors_longer_than_8", "cases_with_weight_vectors_up_to_8",
                      "predictors_serialised_larger_than_16MiB", "predictor_round_trips_in_other_feature_builds",
                      "cases_with_value_equal_weight_vectors_at_different_lengths", "predictors_deserialised_from_odd_buffer_offset",
-                     "trailing_bytes_resembling_structured_data"],
+                     "trailing_bytes_resembling_structured_data", "models_whose_pattern_count_is_a_multiple_of_64"],
     }
 
 
@@ -152,7 +152,8 @@ def run_c02(tier, seed, res):
                      "sentences_via_from_partial_annotation", "sentences_via_update_raw_after_text_of_same_shape",
                      "fallback_sentences_after_rejected_update_checked", "sentences_predicted_edited_and_predicted_again",
                      "sentences_longer_than_65535_chars", "sentences_via_from_tokenized_with_redundant_escapes",
-                     "predict_tool_lines_checked_for_lossless_surfaces", "texts_starting_with_u_feff"],
+                     "predict_tool_lines_checked_for_lossless_surfaces", "texts_starting_with_u_feff",
+                     "sentences_with_128_or_more_unknown_boundaries_in_one_segment"],
         "exhaustive": True,
         "extra": {"exhaustive_scope": "all 3^(n-1) label vectors for n = 1..%d (the random part is sampled)" % nmax},
     }
@@ -270,7 +271,8 @@ def run_c07(tier, seed, res):
                      "model_round_trips_in_reduced_feature_builds", "models_with_repeated_dictionary_word",
                      "models_with_dictionary_word_longer_than_32767_bytes",
                      "runs_with_failing_output_device:manipulate_model", "runs_with_failing_output_device:convert_kytea_model",
-                     "truncated_tool_written_files_offered_to_tools", "models_rewritten_in_place"],
+                     "truncated_tool_written_files_offered_to_tools", "models_rewritten_in_place",
+                     "highly_compressible_models_loaded_by_predict"],
         "exhaustive": True,
         "extra": {"exhaustive_scope": "per fully enumerated model: all proper prefixes, all reader/writer fault positions, all 25x255 header byte changes"},
     }
@@ -441,7 +443,7 @@ def run_c12(tier, seed, res):
         "required": ["tokens_seen_with_tags", "tokens_only_in_tag_dictionary", "categories_with_single_tag",
                      "categories_with_several_tags", "tokens_with_three_ambiguous_categories", "evaluation_tokens_with_known_tags",
                      "candidate_scores_compared_with_learned_classifier", "models_trained_with_normalisation_inspected",
-                     "corpus_lines_of_same_width_normaliser_keys"],
+                     "corpus_lines_of_same_width_normaliser_keys", "corpora_without_any_tag"],
     }
 
 
